@@ -174,6 +174,10 @@ func runC09(rng *rand.Rand, scale int, out string, shards int, seed int64, corpu
 	t0 := time.Now()
 	do := func(in *input) obsT {
 		o := observe(in)
+		if o.Kind == "skipped" {
+			sum.Outcomes["skipped-after-hang"]++
+			return o
+		}
 		parse = append(parse, parseRec{in, o})
 		sum.note(in, o)
 		if in.Fault != "" {
@@ -204,6 +208,9 @@ func runC09(rng *rand.Rand, scale int, out string, shards int, seed int64, corpu
 		cl := genConfig(rng)
 		in, pl, files := layoutConfig(rng, cl, i%2 == 1, i%4 != 0)
 		in.Stream = "single-fault"
+		if hung {
+			break
+		}
 		if observe(in).Kind != "accepted" {
 			// the oracle "the first diagnostic is the planted fault" needs a base the parser accepts
 			sum.Outcomes["single-fault-base-not-accepted"]++
@@ -253,6 +260,9 @@ func runC09(rng *rand.Rand, scale int, out string, shards int, seed int64, corpu
 	// 6. the reader alone
 	var reads []readRec
 	readOne := func(in *input) {
+		if hung {
+			return
+		}
 		r := cmd.VerifC09ReadAll(in.Files, in.Dirs, in.Main, in.Defines, in.IP, 200000)
 		if r.End == "setup" {
 			runtime.GC()
@@ -311,6 +321,9 @@ func runC09(rng *rand.Rand, scale int, out string, shards int, seed int64, corpu
 	// 7. the edit splitter
 	var edits []editRec
 	for i := 0; i < 600*scale; i++ {
+		if hung {
+			break
+		}
 		c := genEditCmd(rng)
 		line := "edit " + c
 		switch rng.Intn(10) {
